@@ -271,6 +271,18 @@ class CoreOps:
             n = max(3, 1000 // bc + r.choice([-1, 0, 1]))   # around the bc*n < 1000 threshold
         if bc * abs(n) > 4 * 10 ** 5 and prec == 0:
             n = 3
+        if r.random() < 0.15:
+            # structured family for the truncations INSIDE the binary-exponentiation loop: base 2^a + c (c tiny) has powers whose
+            # bit patterns are sparse, and the working precision prec + 4*bitcount(n) + 4 is placed to cut them at / next to the
+            # positions a*j, so that the discarded tails are exactly one half, all ones, or a single low bit
+            n = r.choice([3, 3, 4, 5, 6, 7, 9, 12, 17])
+            a = r.randint(max(40, 1000 // n + 1), 420)
+            c = r.choice([1, -1, 3, (1 << r.randint(1, a // 2)) + 1])
+            x = L.from_man_exp(((1 << a) + c) * r.choice([1, -1]), r.randint(-30, 30))
+            wp = a * r.randint(1, n) + r.choice([-2, -1, 0, 0, 1, 2])
+            prec = max(1, wp - 4 * n.bit_length() - 4)
+            rnd = r.choice(["f", "c", "u", "d", "n"])
+            n = n * r.choice([1, 1, 1, -1])
         return ("pow_int %s %d %d %s" % (enc_mpf(x), n, prec, rnd), (lambda: L.mpf_pow_int(x, n, prec, rnd)),
                 {"prec": prec, "rnd": rnd})
 
